@@ -1744,11 +1744,23 @@ impl ProxySession for UdpListenerSession {
     fn timeout(&mut self, token: Token) -> SessionIsToBeClosed {
         if token == self.listener_token {
             let now = Instant::now();
+            let armed_before = self.manager.borrow().poll_timeout();
             self.manager.borrow_mut().handle_timeout(now);
             self.drain_outputs(now);
-            // Re-arm: the manager emits a fresh ArmTimer via poll_output if a
-            // flow is still scheduled (handled inside drain_outputs). Nothing
-            // to do here. Never close the listener on a flow timeout.
+            // Re-arm: the manager emits a fresh ArmTimer via poll_output if the
+            // earliest deadline changed (handled inside drain_outputs). The
+            // wheel rounds to 100 ms ticks and can deliver this one-shot entry
+            // up to half a tick early: nothing is due yet, the earliest deadline
+            // is unchanged, no ArmTimer comes - and the entry is spent. Arm it
+            // again (at least one tick ahead, so an early delivery cannot
+            // repeat within the same tick), or idle flows are never reaped.
+            // Never close the listener on a flow timeout.
+            let armed_after = self.manager.borrow().poll_timeout();
+            if let Some(deadline) = armed_after {
+                if armed_after == armed_before {
+                    self.arm_timer(deadline.max(now + Duration::from_millis(100)), now);
+                }
+            }
         }
         false
     }
